@@ -641,6 +641,15 @@ def deep_nodes(m, fi):
             yield from body_walk(helper.node)
 
 
+def side_never_completes(cfg, tid, label):
+    """no normal exit of the function is reachable from the `label` side ('T' / 'F') of test node tid: that side always raises"""
+    succ = [b for b, lab in cfg.succ[tid] if lab == label]
+    if not succ:
+        return False
+    r = set(succ) | cfg.reach(succ, exc=False)
+    return cfg.exit not in r
+
+
 # every public helper of this module is available through `from sa.lib import *`
 __all__ = sorted(set(__all__) | {k for k, v in list(globals().items())
                                  if not k.startswith('_') and getattr(v, '__module__', None) == __name__})
